@@ -8,8 +8,9 @@ wrapping transport advertises, HTTP options, and `wireOK`) composing
           threshold, two discover rounds with one renegotiation, fallback to `initialize` with
           2025-11-25, verification of the server's answer;
           `Client.discover` (client.go:413-458): pick requested-or-best, reject a legacy result;
-  server  `ServerSession.handle` (server.go:1887-1900): unknown `_meta` version ⇒ -32022 with *all*
-          SDK versions; `Server.discover` (server.go:878-917): advertise the session's transport
+  server  `ServerSession.handle`: a `server/discover` probe naming a version the SDK does not know ⇒
+          -32022 carrying the versions the session's TRANSPORT serves (F34 repair; the probe itself is
+          exempt from the transport test that every other method's `_meta` version undergoes); `Server.discover` (server.go:878-917): advertise the session's transport
           filter; `ServerSession.initialize` (server.go:1995-2020): `negotiatedVersion`, then (F10
           repair) `legacyVersionFor` against the transport filter;
   filter  `filterSupportedVersions` (server.go:919-935) over `SupportsProtocolVersion` of the
@@ -77,7 +78,7 @@ def pick (adv : List String) (v : String) : String :=
 /-- One server/discover round with `_meta.protocolVersion = v`. -/
 def discoverOnce (wireOK : String → Bool) (S : Setup) (v : String) : Disc :=
   if wireOK v = false then .failed
-  else if supportedProtocolVersions.contains v = false then .unsupported supportedProtocolVersions
+  else if supportedProtocolVersions.contains v = false then .unsupported (advertised S)
   else if pick (advertised S) v = "" ∨ pick (advertised S) v < modern then .failed
   else .ok (pick (advertised S) v)
 
